@@ -14,8 +14,26 @@ import (
 	"net/http/httptest"
 	"strings"
 
+	"context"
+
+	"github.com/getkin/kin-openapi/openapi3"
+	"github.com/getkin/kin-openapi/openapi3filter"
+	"github.com/getkin/kin-openapi/routers"
+
 	"kinverif/internal/hx"
 )
+
+// c06Entry: the public entry point through which the body is validated. "" = ValidateRequestBody;
+// "request" = ValidateRequest on a route whose operation declares this request body and nothing else (no
+// parameters, no security): the verdict on the body must be the same.
+func c06Entry(entry string, in *openapi3filter.RequestValidationInput, rb *openapi3.RequestBody) func() error {
+	if entry == "request" {
+		in.Route = &routers.Route{Spec: &openapi3.T{}, Path: "/x", Method: "POST", PathItem: &openapi3.PathItem{},
+			Operation: &openapi3.Operation{RequestBody: &openapi3.RequestBodyRef{Value: rb}}}
+		return func() error { return openapi3filter.ValidateRequest(context.Background(), in) }
+	}
+	return func() error { return openapi3filter.ValidateRequestBody(context.Background(), in, rb) }
+}
 
 // every way a request is built in this check; "" = http.NewRequest from a *strings.Reader (nil when the text is empty)
 var c06ReqKinds = []string{"", "nopcloser", "multireader", "assigned", "chunked", "server", "bytesbuf", "bytesreader",
@@ -144,16 +162,16 @@ func genReqShapes(ctx *hx.Ctx, emit func(hx.Case)) {
 	}
 	jsonC := []any{mtEntry("application/json", obj)}
 	sits := []sit{
-		{jsonC, "application/json", `{"a":1}`},                  // valid
-		{jsonC, "application/json", `{"a":"x"}`},                // violates the schema
-		{jsonC, "application/json", `{"a":1,"r":"x"}`},          // read-only property sent
-		{jsonC, "application/json", `{"a":1`},                   // malformed
-		{jsonC, "application/json", ``},                         // no bytes
-		{jsonC, "application/json", ` `},                        // blank
-		{jsonC, "text/plain", `{"a":1}`},                        // undeclared content type
-		{jsonC, "", `{"a":1}`},                                  // no header
-		{[]any{}, "application/json", `{"a":"x"}`},              // nothing declared
-		{[]any{mtEntry("*/*", nil)}, "image/png", "\x89PNG"},    // no schema
+		{jsonC, "application/json", `{"a":1}`},               // valid
+		{jsonC, "application/json", `{"a":"x"}`},             // violates the schema
+		{jsonC, "application/json", `{"a":1,"r":"x"}`},       // read-only property sent
+		{jsonC, "application/json", `{"a":1`},                // malformed
+		{jsonC, "application/json", ``},                      // no bytes
+		{jsonC, "application/json", ` `},                     // blank
+		{jsonC, "text/plain", `{"a":1}`},                     // undeclared content type
+		{jsonC, "", `{"a":1}`},                               // no header
+		{[]any{}, "application/json", `{"a":"x"}`},           // nothing declared
+		{[]any{mtEntry("*/*", nil)}, "image/png", "\x89PNG"}, // no schema
 		{[]any{mtEntry("application/x-www-form-urlencoded", form)}, "application/x-www-form-urlencoded", `a=1`},
 		{[]any{mtEntry("application/x-www-form-urlencoded", form)}, "application/x-www-form-urlencoded", `b=1`},
 		{[]any{mtEntry("text/plain", sch("ty", "string", "minLen", 4))}, "text/plain", `abc`},
@@ -169,6 +187,11 @@ func genReqShapes(ctx *hx.Ctx, emit func(hx.Case)) {
 							c["skipDefaults"] = true
 						}
 						emit(c06WithShape(c, kind))
+						if !exro {
+							c3 := cloneCase(c)
+							c3["entry"] = "request"
+							emit(c06WithShape(c3, kind))
+						}
 						if skip && !exro {
 							c2 := cloneCase(c)
 							c2["repeat"] = 3
